@@ -529,6 +529,37 @@ func CheckC19(e *Env) int {
 			}
 		}
 	}
+	// sets whose outputs need inputs nothing in the set provides through unusual edges: the
+	// slice of a variadic provider, the parent of a field selection, the concrete side of a
+	// binding, a struct provider's fields
+	for v := 0; v < 4; v++ {
+		b := NewPB(fmt.Sprintf("shv%d", v), "app")
+		opt := b.Carrier(0, "Opt")
+		name := b.NamedOf(0, "Name", Basic("string"), "string")
+		srv := b.Carrier(0, "Server")
+		f := b.Func(0, "NewServer", PtrTo(srv), false, false, name, SliceOf(opt))
+		f.Variadic = true
+		members := []Ref{ItemRef(f.ID)}
+		var params []Param
+		switch v {
+		case 0: // nothing else: both inputs come from outside
+			params = []Param{{Name: "n", Ty: name}, {Name: "opts", Ty: SliceOf(opt)}}
+		case 1: // the slice is provided inside the set
+			members = append(members, ItemRef(b.Func(0, "NewOpts", SliceOf(opt), false, false).ID))
+			params = []Param{{Name: "n", Ty: name}}
+		case 2: // a consumer of the server as well
+			u := b.Carrier(0, "User")
+			members = append(members, ItemRef(b.Func(0, "NewUser", u, false, false, PtrTo(srv)).ID))
+			params = []Param{{Name: "n", Ty: name}, {Name: "opts", Ty: SliceOf(opt)}}
+		case 3: // the name comes from a value
+			members = append(members, ItemRef(b.Value(name).ID))
+			params = []Param{{Name: "opts", Ty: SliceOf(opt)}}
+		}
+		set := b.Set(0, "VSet", members...)
+		b.Inj("Init", PtrTo(srv), false, false, params, SetRef(set.ID))
+		b.P.Feat = map[string]string{"show": "variadic-input", "variant": fmt.Sprint(v)}
+		showProgs = append(showProgs, b.P)
+	}
 	var batches [][]*Program
 	for i := 0; i < len(showProgs); i += 24 {
 		j := i + 24
